@@ -273,9 +273,21 @@ def simplify(term):
     if op == "add":
         a, b = term[1], term[2]
         for x, y in ((a, b), (b, a)):
-            if isinstance(y, tuple) and y[0] == "sub" and y[2] == x:
+            if isinstance(y, tuple) and y[0] == "sub" and y[2] == x and not _missing_first(x):
                 return y[1]  # ref + (x - ref) in integer arithmetic
     return term
+
+
+NAT_FIRST = set()   # model variables whose first element may be missing (NaT)
+
+
+def _missing_first(term):
+    """is this the first element of a variable whose first element may be NaT?  NaT - x and NaT + x are NaT"""
+    if isinstance(term, tuple):
+        if term[0] == "item0" and isinstance(term[1], tuple) and term[1][0] == "var" and term[1][1] in NAT_FIRST:
+            return True
+        return any(_missing_first(x) for x in term[1:])
+    return False
 
 
 def dtype_of_source(term, sources):
@@ -512,9 +524,9 @@ class Model:
         return Obj("Array", OrderedDict(fs=fs, url=Const(url), byte_ranges=byte_ranges, shape=TupS([Const(6), Const(40)]), dtype=self.np.dtype_obj("uint16"), type_code=Const("IU2"),
                                         records_per_chunk=Const(2)), klass=self.array_klass)
 
-    def image_group(self, path, url="IMG-HH-ALOS2012345678-160229-WBDR1.1__D-B3", nested=False):
+    def image_group(self, path, url="IMG-HH-ALOS2012345678-160229-WBDR1.1__D-B3", nested=False, nat_first=False):
         data = DictS()
-        for name, dims, dtype, held in VARIABLES:
+        for name, dims, dtype, held in VARIABLES + ([("time_gap", ["rows"], "datetime64[ns]", "ndarray")] if nat_first else []):
             data.items[name] = self.variable(name, dims, dtype, held)
         data.items["data"] = self.I.call(self.ctor("Variable"), [], OrderedDict(dims=py_const(["rows", "columns"]), data=self.pixel_array(url), attrs=DictS()))
         if nested:
@@ -653,6 +665,8 @@ def lossy_reason(term):
                     return "the stored list is read back as " + to + ": " + r
     if op == "reordered":
         return f"the stored values are passed through {term[1]}(): they come back in another order than the lines they belong to"
+    if op == "add" and any(_missing_first(x) for x in term[1:]):
+        return "the values are stored as offsets from their first element; when that element is missing (NaT) every offset and every value read back is NaT"
     if op == "sub" and isinstance(term[2], tuple) and term[2][0] == "item0" and term[2][1] == term[1]:
         # x - x[0] that survived simplification: nothing on the way back added the first element again (ref + (x - ref) folds to x)
         return "the values are stored as offsets from their first element and read back without adding it again: every value comes back shifted by the first one"
@@ -696,12 +710,16 @@ class Result:
         self.calls = []
 
 
-def run_roundtrip(repo, path="HH_scan3", rpc=7, nested=False):
+def run_roundtrip(repo, path="HH_scan3", rpc=7, nested=False, nat_first=False):
+    """nat_first: the hierarchy also has a datetime column whose first element may be missing (NaT)"""
     R = Result()
+    NAT_FIRST.clear()
+    if nat_first:
+        NAT_FIRST.add("time_gap")
     try:
         M = Model(repo)
         R.calls = M.calls
-        g = M.image_group(path, nested=nested)
+        g = M.image_group(path, nested=nested, nat_first=nat_first)
     except (ShapeError, RecursionError, _Raise) as e:
         R.outcome, R.stage = f"undecided: building the model hierarchy with the package's constructors: {e}", "build"
         return R
